@@ -211,7 +211,10 @@ class C06(Check):
         t_img = z_img if real else -0.5 * d_obj
         sp = spec([surf(R=R, k=k, t=t_img, mat=MIRROR, stop=True)], t_obj=d_obj, ap=('EPD', epd), fields=(0.0,),
                   wls=(round(case['wl'], 6),))
-        self.run(out, case, sp, (0.0, 0.0, z_img), 1.0, real, max(1.0, abs(R), d_obj, abs(z_img)))
+        # the conjugates of a conic mirror lie at R (1 +- e) / (1 + k): lengths (and round-off) grow like 1 / |1 + k|, and so
+        # does the loss of the conic root; the tolerances scale with the same factor
+        cond = max(1.0, 1.0 / abs(1 + k))
+        self.run(out, case, sp, (0.0, 0.0, z_img), 1.0, real, max(1.0, abs(R), d_obj, abs(z_img)) * cond)
 
     def do_ellipsoid(self, case, out):
         self.conic_mirror(case, out, hyper=False)
